@@ -64,6 +64,8 @@ def r2_placeholders(rep, facts, rid='C16/R2', rid3='C16/R3'):
                     ds.add(c0)
         deleg[d] = ds
     ok = dict(direct)
+    # an observer found correct by evaluation (below) is as good a delegate as one that filters in plain sight
+    _pending = []
     changed = True
     while changed:
         changed = False
@@ -78,6 +80,22 @@ def r2_placeholders(rep, facts, rid='C16/R2', rid3='C16/R3'):
         if label in evaluated:
             return evaluated[label]
         res = None
+        if label.split('::')[0] in ('Table', 'InlineTable') and label.split('::')[-1] in ('contains_key', 'get', 'get_mut', 'get_key_value', 'get_key_value_mut') and len(label.split('::')) == 2:
+            # a keyed lookup: the placeholder's key is not found, a real key is
+            try:
+                from .rules_containers import _table_model, fval, unopt, I as I_
+                from .places import PlaceInterp, deref as deref_
+                from .den import Evaluator, Unanalysable as _Un, EvalPanic as _Ep
+                ty_ = 'toml_edit::table::Table' if label.startswith('Table::') else 'toml_edit::inline_table::InlineTable'
+                val_ = lambda t: ('ctor', I_ + 'Value', (fval(t),))
+                ghost = ('ctor', I_ + 'None')
+                outs = []
+                for q in ('a', 'ghost', 'zzz'):
+                    r_ = deref_(PlaceInterp(Evaluator(facts)).apply_fn(facts.body(d), [_table_model(ty_, [('a', val_('a')), ('ghost', ghost), ('b', val_('b'))]), q]))
+                    outs.append(bool(r_) if isinstance(r_, bool) else unopt(r_) is not None)
+                res = outs == [True, False, False]
+            except (_Un, _Ep, TypeError, KeyError, IndexError, AttributeError, ValueError):
+                res = None
         if label.split('::')[0] in ('Table', 'InlineTable') and label.split('::')[-1] in ('len', 'is_empty'):
             try:
                 from .rules_containers import _table_model, fval, I as I_
@@ -93,6 +111,16 @@ def r2_placeholders(rep, facts, rid='C16/R2', rid3='C16/R3'):
                 res = None
         evaluated[label] = res
         return res
+    for label, d in obs.items():
+        if observed(label, d):
+            ok[d] = True
+    changed = True
+    while changed:
+        changed = False
+        for d in obs.values():
+            if not ok[d] and any(ok.get(x) for x in deleg[d]):
+                ok[d] = True
+                changed = True
     for label, d in sorted(obs.items()):
         b = facts.body(d)
         how = 'filters directly' if direct[d] else ('delegates to ' + ', '.join(sorted(by_def[x] for x in deleg[d] if ok.get(x))))
